@@ -234,7 +234,7 @@ def s10_sharp(ctx):
     """direction changes: a three-vertex trace with a turn of phi degrees between its segments (0 = straight)"""
     from shapely.geometry import LineString, Polygon
 
-    res = StreamResult("S10-sharp", rule="three-vertex traces with a turn of 5..75 degrees (clearly below every configured angle: SHARP TURNS must NOT be reported) or "
+    res = StreamResult("S10-sharp", rule="three-vertex traces with a turn of 5..75 degrees or exactly 0 (straight interior vertex on 13 lattice directions) (clearly below every configured angle: SHARP TURNS must NOT be reported) or "
                        "105..175 degrees (beyond the configured 100 between consecutive segments: must be reported), segment length ratios 1/4..4, 12 orientations, "
                        "both digitising directions, offsets 0 / 1e4 / 1e7, default angles (135 / 100); non-trivial = turn beyond the configured angle")
     rng = rng_for(ctx.seed, "S10s")
@@ -249,6 +249,11 @@ def s10_sharp(ctx):
         off = rng.choice([(0.0, 0.0), (1e4, -2e4), (1e7, 1e7)])
         pts = [(0.0, 0.0), (L1, 0.0), (L1 + L2 * math.cos(math.radians(phi)), L2 * math.sin(math.radians(phi)))]
         pts = [rot(p, ang, off) for p in pts]
+        if not beyond and rng.random() < 0.3:
+            # a STRAIGHT interior vertex, exactly on the line between its neighbours (lattice direction): the dot product of the two unit vectors is 1 up to rounding, often above
+            a_, b_ = rng.choice([(3, 1), (1, 7), (5, -2), (-4, 3), (2, 9), (-7, -1), (6, 5), (1, -3), (9, 4), (-2, 5), (7, 7), (0, 3), (4, 0)])
+            phi = 0.0
+            pts = [(off[0], off[1]), (off[0] + a_ * L1, off[1] + b_ * L1), (off[0] + a_ * (L1 + L2), off[1] + b_ * (L1 + L2))]
         if rng.random() < 0.5:
             pts = pts[::-1]
         h = 40.0
